@@ -33,6 +33,8 @@
 //	                                  application are not those of exactly these batches
 //	notif:delivered-above-commit      a batch above the leader's commit offset went down a stream
 //	notif:trimmed-within-retention    a round removed a batch younger than now-retention, or not a prefix
+//	notif:replica-batch-missing       replicated scenarios (replica.go): a real follower created on an empty directory lacks
+//	                                  the batch of an entry it has applied
 //	notif:unexpired-batch-trimmed     the batch of a request committed while a trimming round was running (timestamp >= the
 //	                                  round's clock reading) is gone after the round / not delivered to a resuming subscriber
 //
@@ -71,23 +73,24 @@ var keys = []string{"a", "b", "c", "a/b", "a/c", "a/b/c", "a-", "a0", "\xffz", "
 var seqPrefixes = []string{"s", "q/x"}
 
 type world struct {
-	o       *hx.Out
-	rng     *hx.Rng
-	tag     string
-	shard   int64
-	leader  *node
-	term    int64
-	enabled bool
-	ref     *refState
-	want    map[int64]string // reference notifications per applied offset
-	tsOf    map[int64]uint64
-	nextOff int64
-	subs    map[int]*subscriber
-	open    map[int]bool  // client i has an open stream (between CC with k=all and CL)
-	openPos map[int]int64 // its position when the CC step ended
-	ops     []string
-	res     []string
-	vers    map[string]int64
+	o        *hx.Out
+	rng      *hx.Rng
+	tag      string
+	shard    int64
+	leader   *node
+	term     int64
+	enabled  bool
+	ref      *refState
+	want     map[int64]string // reference notifications per applied offset
+	tsOf     map[int64]uint64
+	nextOff  int64
+	follower *node // replicated scenarios: the real follower of the leader
+	subs     map[int]*subscriber
+	open     map[int]bool  // client i has an open stream (between CC with k=all and CL)
+	openPos  map[int]int64 // its position when the CC step ended
+	ops      []string
+	res      []string
+	vers     map[string]int64
 }
 
 func (w *world) getNotifications(ctx context.Context, req *proto.NotificationsRequest, cb concurrent.StreamCallback[*proto.NotificationBatch]) {
@@ -682,14 +685,25 @@ func (w *world) trimWithWrite(ret int64, req *wreq) {
 // ---------------------------------------------------------------- scenarios
 
 func runScenario(o *hx.Out, rng *hx.Rng, tag string, script func(w *world)) {
+	runScenarioWith(o, rng, tag, nil, script)
+}
+
+func runScenarioWith(o *hx.Out, rng *hx.Rng, tag string, setup func(w *world), script func(w *world)) {
 	shard := int64(1 + rng.Intn(9))
 	w := &world{o: o, rng: rng, tag: tag, shard: shard, term: 1, enabled: true, ref: &refState{exists: map[string]bool{}},
 		want: map[int64]string{}, tsOf: map[int64]uint64{}, subs: map[int]*subscriber{}, open: map[int]bool{}, openPos: map[int]int64{}, vers: map[string]int64{}}
 	w.leader = newNode(shard)
 	w.leader.start()
-	w.leader.becomeLeader(1, true, false)
-	server.VerifWrapLeaderDB(w.leader.lc, func(d kv.DB) kv.DB { return &gateDB{DB: d} })
+	if setup != nil {
+		setup(w)
+	} else {
+		w.leader.becomeLeader(1, true, false)
+		server.VerifWrapLeaderDB(w.leader.lc, func(d kv.DB) kv.DB { return &gateDB{DB: d} })
+	}
 	defer func() {
+		if w.follower != nil {
+			w.follower.destroy()
+		}
 		for _, s := range w.subs {
 			_ = s.disconnect()
 			s.v.Cancel()
@@ -848,7 +862,14 @@ func genCases(o *hx.Out, rng *hx.Rng, n int) {
 	runScenario(o, rng.Fork(), "gated-positions", scriptGated)
 	runScenario(o, rng.Fork(), "behind-trim-then-writes", scriptBehindTrimThenWrites)
 	for c := 0; c < n; c++ {
-		runScenario(o, rng.Fork(), fmt.Sprintf("notif#%d", c), scriptRandom)
+		crng := rng.Fork()
+		if c%6 == 0 {
+			// a real follower on an empty directory, promoted later; every 5th of them with notifications disabled by the term options
+			en := c%30 != 24
+			runScenarioWith(o, crng, fmt.Sprintf("replicated#%d", c), func(w *world) { w.setupReplicated(en) }, scriptReplicated)
+			continue
+		}
+		runScenario(o, crng, fmt.Sprintf("notif#%d", c), scriptRandom)
 	}
 }
 
